@@ -128,6 +128,7 @@ pub fn registry_strategy() -> impl Strategy<Value = Registry> {
           RegFile {
             lang: Lang::Ts,
             items: vec![Item::Filler],
+            text: None,
           },
         );
         for (p, imports) in files {
@@ -136,7 +137,7 @@ pub fn registry_strategy() -> impl Strategy<Value = Registry> {
           let mut items: Vec<Item> =
             imports.iter().map(|r| item_of(r, Some(&path))).collect();
           items.push(Item::Filler);
-          fmap.insert(path, RegFile { lang, items });
+          fmap.insert(path, RegFile { lang, items, text: None });
         }
         let exports = match exports_kind {
           0 => Exports::Single("./mod.ts".into()),
